@@ -78,6 +78,7 @@ theorem apply_fuel_nf {N : Nat} {s : State} (hc : Clean s) (e : Ev) (he : e.enab
     · split <;> rfl
     · rfl
   | finish => simp only [State.apply]; split <;> rfl
+  | badRelease k => rfl
   | cancel i => simp [Ev.orderly] at ho
   | throw i x => simp [Ev.orderly] at ho
   | interrupt i x => simp [Ev.orderly] at ho
